@@ -628,3 +628,74 @@ func init() {
 		Outside: []string{"multi-label / multi-name DNSSL options and route-information option contents in the router table", "the 2-2.8 s period", "RADVS (router advertisement server) goroutines"},
 	})
 }
+
+func dnsJobs(tier string) []Job {
+	c := Config{MaxLoop: 300, MaxWall: 900}
+	r := []string{"decoded"}
+	var jobs []Job
+	for sc := int64(0); sc < 8; sc++ {
+		jobs = append(jobs, Job{Pkg: "root", Func: "VerifC17Records", Args: []int64{sc}, Cfg: c, Reach: r})
+	}
+	for k := int64(0); k < 9; k++ {
+		jobs = append(jobs, Job{Pkg: "root", Func: "VerifC17Malformed", Args: []int64{k}, Cfg: c, Reach: r})
+	}
+	jobs = append(jobs, Job{Pkg: "root", Func: "VerifC17Truncated", Cfg: c, Reach: r})
+	m := []string{"merged"}
+	jobs = append(jobs, Job{Pkg: "root", Func: "VerifC17Merge", SplitN: 36, Cfg: c, Reach: m})
+	full := int64(0)
+	if tier == "thorough" {
+		full = 1
+	}
+	for src := int64(0); src < 5; src++ {
+		jobs = append(jobs, Job{Pkg: "root", Func: "VerifC17HostUpdate", Args: []int64{src, full}, SplitN: 12, Cfg: c, Reach: m})
+	}
+	p := []string{"processed"}
+	for sc := int64(0); sc < 2; sc++ {
+		jobs = append(jobs, Job{Pkg: "handlers/dns_naming", Func: "VerifC17ProcessDNS", Args: []int64{sc}, Cfg: c, Reach: p})
+	}
+	for k := int64(0); k < 3; k++ {
+		jobs = append(jobs, Job{Pkg: "handlers/dns_naming", Func: "VerifC17ProcessDNSMalformed", Args: []int64{k}, Cfg: c, Reach: p})
+	}
+	for sec := int64(0); sec < 3; sec++ {
+		for ex := int64(0); ex < 3; ex++ {
+			jobs = append(jobs, Job{Pkg: "handlers/dns_naming", Func: "VerifC17MDNS", Args: []int64{sec, ex}, Cfg: c, Reach: p})
+		}
+	}
+	nn := int64(2)
+	if tier == "thorough" {
+		nn = 3
+	}
+	for n := int64(0); n <= nn; n++ {
+		jobs = append(jobs, Job{Pkg: "handlers/dns_naming", Func: "VerifC17NBNS", Args: []int64{n, 0x21, 0}, Cfg: c, Reach: p})
+	}
+	for _, sh := range []int64{1, 2, 3, 17, 18} {
+		jobs = append(jobs, Job{Pkg: "handlers/dns_naming", Func: "VerifC17NBNS", Args: []int64{2, 0x21, sh}, Cfg: c, Reach: p})
+	}
+	jobs = append(jobs, Job{Pkg: "handlers/dns_naming", Func: "VerifC17NBNS", Args: []int64{1, 0x20, 0}, Cfg: c, Reach: p})
+	jobs = append(jobs, Job{Pkg: "handlers/dns_naming", Func: "VerifC17NBNS", Args: []int64{1, 1, 0}, Cfg: c, Reach: p})
+	return jobs
+}
+
+func init() {
+	register(&Prop{
+		ID:        "C17",
+		Technique: "bounded symbolic execution of the real DNS decoders and naming handler on messages written by an independent builder (concrete structure, symbolic label / address / TTL bytes); SMT-decided equality with what the builder wrote; merge algebra over symbolic attribute strings",
+		Jobs:      dnsJobs,
+		Filter:    prefixFilter("C17:", true),
+		Bounds: func(tier string) map[string]string {
+			return map[string]string{
+				"decode layer":   "8 message shapes: names of 2-3 labels, the longest legal name (63.63.63.61), 127 one-byte labels, owner names longer than the 64-byte scratch buffer; compression by pointer to the question, label+pointer to a suffix, pointer chains of depth 3, pointer into CNAME rdata; A, AAAA, CNAME, PTR, ignored TXT; all label bytes, addresses, TTLs and the id symbolic",
+				"malformed":      "9 classes: self pointer, label+back pointer, two-pointer cycle, length octet 64..191 (symbolic), pointer at/past the end (symbolic target), label past the end, RDLENGTH too large (symbolic), A with RDLENGTH != 4, owner pointer loop; truncation of a 2-record message at every offset",
+				"naming handler": "ProcessDNS on frames through the real Parse (CNAME+A+AAAA response, second response for the same name, malformed / truncated responses); ProcessMDNS with A and AAAA records in each section, with and without a preceding unknown-type / NSEC record; ProcessNBNS node status responses with 0..2 (thorough 3) names of 1..3 characters, each unique or group, name arrays cut short by 1, 2, 3, 17, 18 bytes, and non-status answer types",
+				"merge":          "NameEntry.Merge and the five Host.Update*Name functions over entries whose name/model are arbitrary strings of 0..2 bytes and OS/manufacturer 0..1 bytes, with and without expiry",
+			}
+		},
+		Assumptions: []string{
+			"structure of each message is concrete (chosen by the builder), contents symbolic",
+			"merge: both entries come from the same naming source (Type equal)",
+			"NBNS names: 15 characters space padded with the workstation suffix 0x00; printable non-space characters",
+			"mDNS host label restricted to a-z (dnsmessage renders other bytes with escapes)",
+		},
+		Outside: []string{"names decoded from arbitrary (unstructured) symbolic bytes", "SSDP / UPnP and LLMNR extraction", "TXT model parsing", "the mDNS response cache expiry"},
+	})
+}
